@@ -92,7 +92,9 @@ def rad_fac(ctx, dim):
 
 
 def _shipped(ctx, cls, dim):
-    l, s = ctx.real("len", pos=True), ctx.real("resc", pos=True)
+    # (sampling ranges for the native spot checks keep erf / the cdf away from its float saturation at 1:
+    #  the symbolic obligations do not use them)
+    l, s = ctx.real("len", lo=0.5, hi=1.5), ctx.real("resc", lo=0.7, hi=1.5)
     ctx.require(ctx.And(ctx.gt(l, 0), ctx.gt(s, 0)))
     return _q(getattr(gs, cls), dim=dim, len_scale=l, rescale=s)
 
@@ -458,3 +460,8 @@ def hankel_convention(ctx, hist, dim):
                    and ctx.And(ctx.shape_eq(c[0][1], (1,)), ctx.eq(c[0][1][0], ctx.m.abs(k))))
     finally:
         cb.SFT, ctools.SFT = real, real_t
+
+
+# the Integral / TPL densities use tools.special.inc_gamma_low: its dispatch and values (bounded, mpmath)
+from contracts import special_fn  # noqa: E402
+special_fn.register(P)
